@@ -141,7 +141,7 @@ def plot_burst_detect_summary(df_features, sig, fs, threshold_kwargs, xlim=None,
 
             last_cyc = int(cyc['sample_last_' + side_e]) - int(round(fs * start))
             next_cyc = int(cyc['sample_next_' + side_e]) - int(round(fs * start))
-            if cyc[column] < threshold_kwargs[osc_key] and last_cyc > 0:
+            if cyc[column] < threshold_kwargs[osc_key] and last_cyc > 0 and next_cyc < len(times):
                 axes[0].axvspan(times[last_cyc], times[next_cyc],
                  alpha=0.5, color=color, lw=0)
 
